@@ -112,6 +112,12 @@ class SchedProp(Prop):
         d['ops'] = driver_inp['ops']
         return d
 
+    def equal(self, model_out, obs):
+        # the model predicts a subset of the observation keys; extra keys are for the judges only
+        if not isinstance(model_out, list) or not isinstance(obs, list) or len(model_out) != len(obs):
+            return False
+        return all(all(m.get(k) == o.get(k) for k in m) for m, o in zip(model_out, obs))
+
     def classify(self, inp, obs):
         if isinstance(obs, dict):
             return 'crash'
